@@ -419,7 +419,10 @@ class World:
         cwd_before = set(os.listdir(self.cwd))
         seam = fsseam.FsSeam(self.P, crash_at=crash_at, torn=torn, error_at=error_at,
                              error_errno=getattr(errno, err) if err else errno.ENOSPC, hard=hard, error_persistent=persistent)
-        os.chdir(self.cwd)
+        # the commands of a history are calls into ONE long-lived process (library use): it works wherever the previous call
+        # left it - normally the directory it started in
+        proc_cwd = getattr(self, "proc_cwd", None) or self.cwd
+        os.chdir(proc_cwd if os.path.isdir(proc_cwd) else self.cwd)
         # every generate command is a separate PROCESS in reality: give each its own process id
         self.gen_counter += 1
         real_getpid = os.getpid
@@ -428,6 +431,14 @@ class World:
             res = self.genrun.run_cli(self.argv(op), around=lambda: seam)
         finally:
             os.getpid = real_getpid  # type: ignore[assignment]
+        try:
+            self.proc_cwd = os.getcwd()
+        except OSError:
+            self.proc_cwd = self.cwd
+        if seam.dead:
+            self.proc_cwd = self.cwd  # the process was killed: the next command is a new process, started where the user works
+        if os.path.realpath(self.proc_cwd) != os.path.realpath(self.cwd):
+            self.probe("process-cwd-left-changed")
         os.chdir(self.sandbox)
         self.log.append(f"op {label} {op['op']} doc={op['doc']} meta={op['meta']} overwrite={op.get('overwrite')} crash_at={crash_at} torn={torn} hard={hard} error_at={error_at}:{err} persistent={persistent} -> exit={res['exit_code']} exc={res['exception']} fired={seam.fired}")
         self.log.extend(seam.lines())
